@@ -457,7 +457,9 @@ func takePenalty(currentDB *state.StateDB, val *state.Validator, penaltyAmount *
 	}
 
 	// second, take penalty from staking
-	newVal = val.PartialCopy()
+	// The amounts of the penalised delegations are edited below: do that on copies of the entries,
+	// val stays in the journal as the pre-image of the update (PartialCopy shares the entries with it).
+	newVal = val.DeepCopy()
 	fromDeposit := fromWithdraw // just for clear
 	if penaltyAmount.Sign() > 0 {
 		if selfPenalty.Sign() > 0 {
